@@ -346,6 +346,10 @@ def r16(ctx: Ctx) -> RuleReport:
 
         IN = cfg.forward(frozenset(), transfer, lambda a, b: a & b)
         pm = ctx.repo.parent_map(fi.node)
+        # a helper that is only ever called right after its caller peeked starts with that knowledge
+        entry = _entry_peeked(ctx, fi)
+        if entry:
+            IN = cfg.forward(frozenset(entry), transfer, lambda a, b: a & b)
         for call in calls:
             n = call
             while id(n) not in cfg.expr_cond and not isinstance(n, ast.stmt):
@@ -388,6 +392,55 @@ def r16(ctx: Ctx) -> RuleReport:
                     else:
                         rep.violation(key, m.loc(n), 'self.next() may raise StopIteration out of a DecodeError-only API')
     return rep
+
+
+def _entry_peeked(ctx: Ctx, fi: FuncInfo, depth: int = 0) -> Set[str]:
+    """Parameters of `fi` holding a token iterator that every (resolved) caller has successfully peeked at the call."""
+    callers = ctx.cg.callers.get(fi.fq, [])
+    if not callers or depth > 2:
+        return set()
+    out: Optional[Set[str]] = None
+    for cfi, call in callers:
+        if cfi.fq == fi.fq:
+            continue
+        cfg = CFG(cfi.node)
+
+        def transfer(node: Node, label, facts: frozenset, cfi=cfi):
+            cur = set(facts)
+            for op, c, recv in token_ops(ctx, cfi, node):
+                if op == 'peek':
+                    cur.add(recv)
+                elif op == 'bool':
+                    if label == 'T':
+                        cur.add(recv)
+                    else:
+                        cur.discard(recv)
+                elif c is call or any(x is call for x in ast.walk(c)):
+                    pass            # the call we are looking at: its effect comes after its entry
+                else:
+                    cur.discard(recv)
+            if node.kind == 'stmt':
+                from ..cfg import assigned_names
+                for nm in assigned_names(node.ast):
+                    cur.discard(nm)
+            return frozenset(cur)
+        IN = cfg.forward(frozenset(_entry_peeked(ctx, cfi, depth + 1)), transfer, lambda a, b: a & b)
+        pm = ctx.repo.parent_map(cfi.node)
+        # an indirect call through a local (`f = TABLE.get(kind); ... f(tokens)`) is found by its argument list
+        sites = [call] if any(x is call for x in walk_local(cfi.node)) else []
+        here: Set[str] = set()
+        for site in sites:
+            n = site
+            while id(n) not in cfg.expr_cond and not isinstance(n, ast.stmt):
+                n = pm[id(n)]
+            nid = cfg.expr_cond.get(id(n)) if id(n) in cfg.expr_cond else cfg.node_of(n)
+            facts = IN.get(nid, frozenset())
+            pos = fi.positional[1:] if fi.is_method() else fi.positional
+            for prm, a in zip(pos, site.args):
+                if isinstance(a, ast.Name) and a.id in facts:
+                    here.add(prm)
+        out = here if out is None else (out & here)
+    return out or set()
 
 
 def _in_try_stopiteration(pm, node) -> bool:
@@ -505,9 +558,15 @@ def r43(ctx: Ctx) -> RuleReport:
         # and the stored value is the token being returned
         rets = [n for n in walk_local(fi.node) if isinstance(n, ast.Return) and n.value is not None]
         val = nd.ast.value if isinstance(nd.ast, (ast.Assign, ast.AnnAssign)) else None
+        if isinstance(nd.ast, ast.Assign) and isinstance(nd.ast.targets[0], (ast.Tuple, ast.List)) and isinstance(val, (ast.Tuple, ast.List)) \
+                and len(val.elts) == len(nd.ast.targets[0].elts):
+            for t, v in zip(nd.ast.targets[0].elts, val.elts):
+                if isinstance(t, ast.Attribute) and t.attr == '_last':
+                    val = v
         same = bool(rets) and val is not None and all(norm(r.value) == norm(val) for r in rets)
-        rep.oblige('the last token recorded is the token returned', same, '', fi.loc(nd.ast),
-                   key=f'penman._lexer:TokenIterator.next: last == returned')
+        differs = bool(rets) and isinstance(val, (ast.Name, ast.Attribute)) and all(isinstance(r.value, (ast.Name, ast.Attribute)) for r in rets) and not same
+        rep.oblige('the last token recorded is the token returned', same, '' if same else f'records {norm(val) if val is not None else None}', fi.loc(nd.ast),
+                   key=f'penman._lexer:TokenIterator.next: last == returned', positive=differs)
     return rep
 
 
